@@ -92,6 +92,7 @@ struct Stats {
     struct itimerval it; memset(&it, 0, sizeof it); it.it_value.tv_sec = secs; setitimer(ITIMER_VIRTUAL, &it, nullptr);
   }
   // Write the case about to run, so the driver holds it if the process dies.
+  std::string narrowed;   // set by a harness that ran several sub-cases of one text: the sub-case that failed (stored instead of the whole text)
   void about_to_run(const std::string &text) {
     arm_watchdog();
     if (last_path.empty()) return;
